@@ -24,6 +24,7 @@
 #include <sys/syscall.h>
 #include <sys/timerfd.h>
 #include <sys/wait.h>
+#include <dlfcn.h>
 #include "vt.h"
 
 /* ---- real symbols ---------------------------------------------------- */
@@ -52,6 +53,7 @@ WEAK void hk_wait_return(struct vt_wait *w) { (void)w; }
 WEAK void hk_wait_block(struct vt_wait *w) { (void)w; }
 WEAK int  hk_quiescent(void) { return 0; }
 WEAK void hk_idle(void) { }
+void hk_deadlock(const char *kind, const char *desc);
 WEAK void hk_dead_end(void)
 {
 	static const char m[] = "VT dead end: nothing can happen any more and no harness hook\n";
@@ -94,6 +96,11 @@ struct vthr {
 	int			exit_round;
 	int			wake_eintr;
 	pthread_t		pth;
+	_Atomic int		tid;
+	pthread_mutex_t *_Atomic	wait_m;		/* mutex this thread is blocked on (contended lock), or NULL */
+	void			*wait_ra;	/* ... and the caller of that pthread_mutex_lock() */
+	uint64_t		dl_sig;
+	int			dl_streak;
 	_Atomic int		has_pth, detached;	/* leave the wait with EINTR (simulated signal at a point in virtual time) */
 };
 static struct vthr thr[MAXT];
@@ -150,6 +157,9 @@ static int slot_alloc(void)
 			thr[i].has_pth = 0;
 			thr[i].detached = 0;
 			thr[i].wake_eintr = 0;
+			thr[i].tid = (int)__real_syscall(SYS_gettid);
+			thr[i].wait_m = NULL;
+			thr[i].dl_streak = 0;
 			thr[i].rng = (case_seed * 0x9E3779B97F4A7C15ULL) ^ ((uint64_t)(i + 1) << 32) ^ 0x5DEECE66DULL;
 			if (i >= nslots)
 				nslots = i + 1;
@@ -500,10 +510,128 @@ int __wrap_pthread_detach(pthread_t th)
 	return __real_pthread_detach(th);
 }
 
+/*
+ * Dead-lock observation.  A thread that finds a mutex taken waits for it in 50 ms (real time) slices and looks at the
+ * wait-for graph after each: the owner is read from the mutex itself (glibc records the owner's tid for every kind of
+ * mutex and pthread_cond_wait clears it).  A verdict needs a structural dead end, not a time-out: every thread that the
+ * quiescence account still calls "running" is in fact blocked on a mutex, and every such chain ends in a thread that
+ * sleeps in its poll call while it owns the mutex, in the waiter itself (relock), or in a cycle;
+ * no child process is outstanding; and the same picture, with the same epoch and the same waits of the holders, was seen
+ * in four consecutive slices.  Nothing can run in that state: virtual time only moves at quiescence.
+ */
+WEAK void hk_deadlock(const char *kind, const char *desc)
+{
+	char buf[700];
+	int n = snprintf(buf, sizeof(buf), "DEADLOCK kind=%s %s\n", kind, desc);
+	if (__real_write(1, buf, n) < 0) {}
+	_exit(4);
+}
+
+static int slot_of_tid(int tid)
+{
+	int i;
+	for (i = 0; i < nslots; i++)
+		if (thr[i].state != T_FREE && thr[i].tid == tid)
+			return i;
+	return -1;
+}
+
+static void deadlock_check(struct vthr *me)
+{
+	int i, nw = 0, ok = 1, steps;
+	uint64_t sig = epoch, e1 = epoch;
+	const char *kind = NULL;
+	int hold = -1;
+
+	if (in_child || !virtual_on || ext_pending != 0)
+		goto no;
+	for (i = 0; i < nslots; i++)
+		if (thr[i].state != T_FREE && thr[i].wait_m != NULL)
+			nw++;
+	if (running != nw)
+		goto no;
+	for (i = 0; i < nslots && ok; i++) {
+		int cur = i;
+		if (thr[i].state == T_FREE || thr[i].wait_m == NULL)
+			continue;
+		for (steps = 0; steps <= MAXT; steps++) {
+			pthread_mutex_t *m = thr[cur].wait_m;
+			int otid, o, st;
+			if (m == NULL) { ok = 0; break; }
+			otid = __atomic_load_n(&m->__data.__owner, __ATOMIC_RELAXED);
+			o = otid ? slot_of_tid(otid) : -1;
+			if (o < 0) { ok = 0; break; }
+			sig = sig * 0x100000001B3ULL ^ ((uint64_t)cur << 40) ^ ((uint64_t)o << 20) ^ (uint64_t)(uintptr_t)m ^ (thr[o].nwaits << 8);
+			st = thr[o].state;
+			if (o == cur) { if (&thr[i] == me) { kind = "relock"; hold = o; } break; }
+			if (thr[o].wait_m != NULL) {
+				if (o == i) { if (&thr[i] == me && kind == NULL) { kind = "cycle"; hold = o; } break; }
+				cur = o;
+				continue;
+			}
+			if (st == T_BLOCKED_LOOP) { if (&thr[i] == me && kind == NULL) { kind = "holder-sleeps-in-poll"; hold = o; } break; }
+			ok = 0;
+			break;
+		}
+		if (steps > MAXT)
+			ok = 0;
+	}
+	if (!ok || kind == NULL || epoch != e1 || running != nw)
+		goto no;
+	if (me->dl_streak > 0 && me->dl_sig == sig)
+		me->dl_streak++;
+	else {
+		me->dl_sig = sig;
+		me->dl_streak = 1;
+	}
+	if (me->dl_streak >= 4) {
+		char desc[600];
+		Dl_info di;
+		const char *mod = "?";
+		unsigned long off = 0;
+		memset(&di, 0, sizeof(di));
+		if (dladdr(me->wait_ra, &di) && di.dli_fbase != NULL) {
+			mod = di.dli_fname ? di.dli_fname : "?";
+			off = (unsigned long)((char *)me->wait_ra - (char *)di.dli_fbase);
+		}
+		snprintf(desc, sizeof(desc), "ra=%s+0x%lx :: thread slot %d (tid %d) is blocked in pthread_mutex_lock(%p); the mutex is owned by thread slot %d (tid %d, state %d, %llu waits); %d thread(s) blocked on mutexes, none running, epoch %llu stable over 4 slices",
+			 mod, off - 1, (int)(me - thr), (int)me->tid, (void *)me->wait_m, hold, hold >= 0 ? (int)thr[hold].tid : 0,
+			 hold >= 0 ? (int)thr[hold].state : -1, hold >= 0 ? (unsigned long long)thr[hold].nwaits : 0ULL, nw, (unsigned long long)e1);
+		hk_deadlock(kind, desc);
+		me->dl_streak = 0;
+	}
+	return;
+no:
+	me->dl_streak = 0;
+}
+
 int __wrap_pthread_mutex_lock(pthread_mutex_t *m)
 {
+	struct vthr *t;
+	int r;
+
 	perturb();
-	return __real_pthread_mutex_lock(m);
+	if (!virtual_on || vt_nonparticipant || in_child)
+		return __real_pthread_mutex_lock(m);
+	r = pthread_mutex_trylock(m);
+	if (r != EBUSY)
+		return r;
+	t = &thr[vt_self()];
+	t->wait_ra = __builtin_return_address(0);
+	t->dl_streak = 0;
+	atomic_store(&t->wait_m, m);
+	for (;;) {
+		struct timespec ts;
+		__real_clock_gettime(CLOCK_REALTIME, &ts);
+		ts.tv_nsec += 50000000;
+		if (ts.tv_nsec >= 1000000000) { ts.tv_sec++; ts.tv_nsec -= 1000000000; }
+		r = pthread_mutex_timedlock(m, &ts);
+		if (r != ETIMEDOUT)
+			break;
+		deadlock_check(t);
+	}
+	atomic_store(&t->wait_m, NULL);
+	return r;
 }
 
 int __wrap_pthread_mutex_unlock(pthread_mutex_t *m)
